@@ -448,6 +448,16 @@ def _main(mod, prop, args, seed, t0):
     if not os.path.exists(DRIVER):
         raise InfraError("driver executable missing after lake build:\n" + log[-1500:])
 
+    # ---- 1b. the Python-semantics prelude is itself tested against CPython/NumPy (DESIGN §2.1)
+    import pyself
+
+    st = pyself.ops_and_expected(Rng(seed).fork("pyself"))
+    got = run_driver([o for o, _ in st])
+    bad_py = [(o, e, g) for (o, e), g in zip(st, got) if e != g]
+    if bad_py:
+        raise InfraError(f"Py.lean self-test disagrees with CPython/NumPy on {len(bad_py)} ops, e.g. {bad_py[0]}")
+    py_selftest = {"ops": len(st), "disagreements": 0}
+
     # ---- 2./3. correspondence + oracle
     if args.replay:
         payload = json.load(open(os.path.join(VERIF, args.replay) if not os.path.isabs(args.replay) else args.replay))
@@ -583,6 +593,7 @@ def _main(mod, prop, args, seed, t0):
         "model_impl_disagreements": len([r for r in results if r["disagree"]]),
         "oracle_failures_on_impl": len(oracle_bad),
         "known_findings_hit": sorted(known_lines),
+        "py_prelude_selftest": py_selftest,
         "impl_seconds": round(t_impl, 2),
         "model_seconds": round(t_model, 2),
         "repo": REPO,
